@@ -21,7 +21,8 @@ AcceptOp ==
                             /\ ObsOK(Ev.o, PNext(pos, X))
     [] Ev.ev = "resplit" -> Ev.r.k = "unit" /\ ObsOK(Ev.o, pos)             \* re-splitting changes nothing
     [] OTHER -> FALSE
-HeapOK == Ev.h = << 0, 0, 0 >>                          \* C07: branches by reference / Rc never allocate after creation
+\* C07: branches by reference / Rc never allocate after creation (creating Rc branches allocates once)
+HeapOK == (Ev.ev = "resplit" /\ Ev.a.to = "rc") \/ Ev.h = << 0, 0, 0 >>
 
 TReset == /\ Consume /\ Ev.ev = "reset"
           /\ IF AcceptReset THEN pos' = P0 /\ cap' = Ev.cfg.cap /\ skip' = FALSE
